@@ -29,11 +29,12 @@ func (c *CoqFile) Intern(prefix, typ, term string) string {
 	if c.terms == nil {
 		c.terms = map[string]string{}
 	}
-	if n, ok := c.terms[term]; ok {
+	key := typ + "|" + term
+	if n, ok := c.terms[key]; ok {
 		return n
 	}
 	n := prefix + strconv.Itoa(len(c.terms))
-	c.terms[term] = n
+	c.terms[key] = n
 	fmt.Fprintf(&c.tdefs, "Definition %s : %s := %s.\n", n, typ, term)
 	return n
 }
